@@ -29,6 +29,10 @@ TEXT = {
             "death points inside the save are excluded here (C13's subject)"),
     'C11': ('exploration', '7 C11', "Liveness as bounded progress: S1 flags wait() with nothing in flight (spin) and caps wait() calls; S2 requires run_tasks to finish within 10 polling rounds of the last worker event and aborts on deadlock / 20 000 scheduler steps / 600 virtual seconds; random kills, kills after the result was queued, max_workers=1, progress displays on and off.",
             "virtual-time assumption: coordinator CPU steps are instantaneous relative to the 0.5 s poll"),
+    'C12': ('fault_enumeration', '7 C12', "Single-fault enumeration: a fault-free reference execution of each configuration (cache format x result shape small / multi-frame / unpicklable-at-depth x first save / overwrite; thorough: x serial / S1 / simulated fork / simulated spawn) lists every injection point of the save - each storage call, each write/flush/close, a torn variant of each write, each executed line - and there is one run per point; afterwards a new Lab must either not report the task, or load a complete acceptable value. Exhaustive over the points of the reference executions.",
+            "single faults only; injection points are those of the reference execution (a run that does not reach its point is a harness error)"),
+    'C13': ('fault_enumeration', '7 C13', "Kill-point enumeration in the simulated process backends: the worker is killed (frozen for ever, no finally, no with-exit) at every yield point of its save phase - storage calls, write/flush/close boundaries, line boundaries of the save path, a split inside writes larger than a page - each with user-space buffers lost and flushed first; first save and overwrite; afterwards a new Lab must either not report the task or load a complete old/new value. Exhaustive over the kill points of the reference executions.",
+            "process-kill semantics only (OS page cache survives); interleavings inside one storage operation (e.g. a half-finished rmtree) are not modelled"),
     'C16': ('exploration', '7 C16', "At the process-creation seam every worker of the fork/spawn backend must be requested from the fork/spawn context; context seen inside run() equals filter_context(lab.context); storage is byte-identical between runs differing only in context; plus a real-OS probe (pid, ppid, module global mutated by the parent) on the three real backends.",
             "the real-OS half has no schedule dependence and is a real-execution probe, declared as such"),
     'C19': ('exploration', '7 C19', "Simulated fork and spawn backends; every node emits a drawn pattern of uniquely tokenised labtech.logger records, printed lines, stderr lines, partial writes and explicit flushes; a handler on the caller's logger must have received each required token exactly once before run_tasks returns; the scheduler decides which worker finishes in the last polling round.",
